@@ -65,3 +65,31 @@ def report_findings(cx, chk, prefixes, extra=None):
                       "paths": sum(r["paths"] for r in seen_root.values())}
     chk.analysed["nt"] = stats
     return stats
+
+
+def callback_consistency(cx, chk, cfg, rule, only=None, why="if it unwinds, the operation ends with a chain whose nodes are not exactly the entries of the index"):
+    """at every eviction-callback site each tracked node is in its list's chain iff it is in that list's index (shared by the rules that
+    depend on the state a panicking callback leaves behind). Returns the number of callback site visits."""
+    from .absint import fmt_val
+    F = cx.facts[cfg]
+    n = 0
+    bad = 0
+    for f, p, w in walk(cx, cfg, only=only):
+        if is_teardown(f):
+            continue
+        for (i, e, kind, snap) in w.snapshots:
+            if kind != "cb":
+                continue
+            n += 1
+            for node, st in snap.items():
+                if st.kind in ("unknown", "sentinel") or st.own != "raw":
+                    continue
+                L, I = isinstance(st.link, tuple), isinstance(st.index, tuple)
+                if L != I or (L and I and st.link[1:] != st.index[1:]):
+                    bad += 1
+                    g = F.fns.get(e.get("fn")) or f
+                    chk.violation(rule, "%s|%s" % (f["q"], st.src.split("#")[0]), "the eviction callback runs while node %s is linked=%s indexed=%s: %s" % (fmt_val(node), L, I, why),
+                                  g["span"]["file"], e.get("ln"), g["q"], ["root " + f["q"]], cfg)
+    if not bad:
+        chk.ob(rule, cfg + ":callback-sites", "chain = index at %d callback site visits" % n)
+    return n
